@@ -79,6 +79,10 @@ func (a *Asm) Ecalli(id uint32) {
 	}
 }
 
+// EcalliRaw emits ecalli with exactly the given immediate octets (the immediate is sign-extended: a single octet of
+// 0x80 or more denotes an identifier near 2^64).
+func (a *Asm) EcalliRaw(imm ...byte) { a.op(OpEcalli, imm...) }
+
 // MoveReg emits move_reg dst, src.
 func (a *Asm) MoveReg(dst, src int) { a.op(OpMoveReg, byte(src<<4|dst)) }
 
